@@ -11,10 +11,10 @@ IR_NOTE = ('Trusted: Coq 8.16.1 kernel; extraction (ExtrOcamlBasic only); ocaml/
 
 CHECKS = {
  'C01': dict(engine='ir', technique='Coq proof (invariant by induction over op histories) + model/implementation correspondence',
-   text='proof (full statement on the model): in every state reachable by any history of public editing calls (any arguments, accepted or refused) every container lists exactly the elements that name it as their parent, each once; a pin is on a wire\'s list exactly when it reports that wire, each once; reorder only permutes (Props/C01.v: C01_step - the invariant Inv is preserved by every op, every argument, every outcome and the model never gets stuck -, C01_reachable, C01_containers, C01_pins_and_wires, C01_reorder, C01_nonvacuous). The model of all IR mutators is tied to the code by running the same random histories on spydrnet and on the extracted model and comparing full structural dumps after every call, plus the Inv1 oracle on the implementation.',
+   text='proof (full statement on the model): in every state reachable by any history of public editing calls (any arguments, accepted or refused) every container lists exactly the elements that name it as their parent, each once; a pin is on a wire\'s list exactly when it reports that wire, each once; reorder only permutes (Props/C01.v: C01_step - the invariant Inv is preserved by every op, every argument, every outcome and the model never gets stuck -, C01_reachable, C01_containers, C01_pins_and_wires, C01_reorder, C01_nonvacuous); and over histories that mix editing calls with completed Definition.clone, uniquify and flatten runs (C01_mixed_histories, Proofs/XHistory.v over the faithfulness theorem of Definition._clone). The model of all IR mutators is tied to the code by running the same random histories on spydrnet and on the extracted model and comparing full structural dumps after every call, plus the Inv1 oracle on the implementation.',
    design='DESIGN.md 5/C01, 10'),
  'C02': dict(engine='ir', technique='Coq proof (invariant by induction over op histories) + model/implementation correspondence',
-   text='proof (full statement on the model): in every state reachable by any history of public editing calls (any arguments, accepted or refused) an instance referencing d is a member of d.references and of no other set, carries exactly one outer pin per inner pin its definition currently has (no duplicates), and no wire lists an outer pin the instance does not carry (Props/C02.v: C02_reachable, C02_step, C02_reference_sets, C02_outer_pins, C02_no_dropped_pin_on_wire; invariant Inv by induction over histories). Re-pointing to a shape-compatible definition keeps every connection on the corresponding pin: C02_repoint_full (pin side) and C02_repoint_wires (every wire keeps its pins at the same positions with each outer pin replaced by its counterpart), Proofs/Repoint.v. Tied to the code by the correspondence run (instance pin maps and wires compared after every call) and the Inv2/MirrorPins oracles on the implementation.',
+   text='proof (full statement on the model): in every state reachable by any history of public editing calls (any arguments, accepted or refused) an instance referencing d is a member of d.references and of no other set, carries exactly one outer pin per inner pin its definition currently has (no duplicates), and no wire lists an outer pin the instance does not carry (Props/C02.v: C02_reachable, C02_step, C02_reference_sets, C02_outer_pins, C02_no_dropped_pin_on_wire; invariant Inv by induction over histories; C02_mixed_histories: also over histories with completed Definition.clone, uniquify and flatten runs). Re-pointing to a shape-compatible definition keeps every connection on the corresponding pin: C02_repoint_full (pin side) and C02_repoint_wires (every wire keeps its pins at the same positions with each outer pin replaced by its counterpart), Proofs/Repoint.v. Tied to the code by the correspondence run (instance pin maps and wires compared after every call) and the Inv2/MirrorPins oracles on the implementation.',
    design='DESIGN.md 5/C02, 10'),
  'C10': dict(engine='ir', technique='Coq proof (invariant by induction over op histories: namespace tables = children names; finite-map laws; identifier legality iff) + model/implementation correspondence of the namespace manager',
    text='proof (history invariant on the model): in every state reachable by any sequence of public editing calls (create/add/remove/re-add, rename, identifier set/delete/pop, name deletion, policy changes that rebuild or drop whole subtrees, accepted or refused), every table of the namespace manager is exactly the names - and under the EDIF policy the case-folded identifiers - of the children of its scope (Props/C10.v: C10_tables_exact by induction over histories with Inv, InvT (typing of containment), Fresh; C10_step). Corollaries for every reachable state: names unique per scope (C10_names_unique), identifiers unique up to letter case (C10_identifiers_unique), exact lookup = linear scan (C10_lookup_is_scan), a rename is refused for a conflict exactly when another present sibling carries the name (C10_refused_exactly). Legal form: the legality test = declarative EDIF identifier syntax (iff), and after any history an element carrying the EDIF policy stores only a legal identifier (C10_stored_identifiers_legal, Proofs/NsLegal.v). Clone, which writes private fields directly and re-applies the policy at the end: after a completed Definition.clone in any reachable state, for a definition carrying a policy, every table - old ones and the copy\'s - is again exact, with typing and containment kept so that the step invariant continues (C10_clone_definition_tables_exact; Proofs/CloneNs.v over CloneInv/CloneT/TabK: only the copy can have received a table, the copy carries the original\'s data, dropping then re-assigning the policy rebuilds its table from its children); clones of the other kinds of root are decided by the NsInv oracle on the implementation and the table correspondence (model tables compared with the manager\'s after every call).',
